@@ -19,6 +19,9 @@ LOGX = {"name": "logx", "crate": "logx", "bin": "logx", "kind": "verif", "args":
 PROCX = {"name": "procx", "crate": "procx", "bin": "procx", "kind": "verif", "args": [],
          "about": "E4: one child process per logging configuration (process-global dispatchers); exhaustive configuration lattice × event script vs a reference routing function; shutdown cut at every script position"}
 
+TOPICX = {"name": "topicx", "crate": "topicx", "bin": "topicx", "kind": "verif", "args": [],
+          "about": "E3 on the topic channel: controlled scheduler over real OS threads with scheduling points inside publish / subscribe / unsubscribe / close / clone (hook H8); DFS over schedules with preemption bound 2 (quick) / 3 (thorough); every history checked for linearizability against the routing model by brute force"}
+
 CACHEX = {"name": "cachex", "crate": "cachex", "bin": "cachex", "kind": "verif", "args": [],
           "about": "E2: exhaustive operation / clock-step / maintenance histories on the real cache (virtual clock H1, no background threads H2) vs a register-per-key model; residency dump, synchronous listener pump"}
 
@@ -87,14 +90,14 @@ CHECKS = {
     "C06": chan("idle-stall probe after every explored history: when no task is runnable no pending future/stream may be able to complete; cancellation at every point of every history loses/duplicates nothing", "§4 C06, §2 E2"),
     "C07": chan("sequential half: every history of sends/batches/receives/clone/close/drop/convert on the broadcast channel (1 sender, ≤2 receivers, capacities 1..3) equals the per-receiver-view model: each receiver sees every value once in order from its creation point, the sender is held back by the slowest open receiver, closing/dropping a receiver releases it", "§4 C07, §12"),
     "C08": {
-        "jobs": [SEQX_TOPIC],
+        "jobs": [SEQX_TOPIC, TOPICX],
         "level": "model_checking",
-        "level_text": "every history up to the depth over subscribe/unsubscribe (2 topics), send, try_recv/recv_timeout, clone/close/drop/convert of ≤2 sender and ≤2 receiver handles, mailbox capacity 1–2, against a routing model (subscription relation, bounded drop-newest mailboxes, live sender-handle count)",
-        "level_note": "histories only: interleavings of publishing with subscription changes are NOT explored — the topic path is built on papaya, parking_lot and std threads, which neither loom nor the lock hooks intercept (DESIGN §4 C08, §8)",
-        "technique": "stateless exhaustive DFS over operation histories of the real topic channel vs reference routing model",
-        "design_ref": "§4 C08",
-        "rule": "all histories up to depth d over the alphabet above, each re-executed on a fresh channel and compared step by step with the routing model; non-trivial = at least one message received",
-        "assumptions": ["single thread; async receivers are driven through try_recv (their futures are covered by the mailbox unit of C06 only)"],
+        "level_text": "every history up to the depth over subscribe/unsubscribe (2 topics), send, try_recv/recv_timeout, clone/close/drop/convert of ≤2 sender and ≤2 receiver handles, mailbox capacity 1–2, against a routing model (subscription relation, bounded drop-newest mailboxes, live sender-handle count); every schedule (preemption bound 2 quick / 3 thorough) of a publisher thread racing 1–2 threads that subscribe, unsubscribe, read, clone, close or drop receivers / drop or close the sender, each history checked for linearizability against the same routing model",
+        "level_note": "seqx-topic: single-thread histories. topicx: real threads under the controlled scheduler; scheduling points are the cfg-only points of hook H8 between the steps of publish/subscribe/unsubscribe/close/clone on shared structures (map lookup, subscriber-list snapshot, each mailbox delivery, list modification, receiver-count update) — code between two points (papaya map operations, left-right modify, the parking_lot-protected mailbox) is an atomic block, so interleavings inside those primitives are not explored",
+        "technique": "stateless exhaustive DFS over operation histories of the real topic channel vs reference routing model; stateless exhaustive DFS over thread schedules under a controlled scheduler with iterative preemption bounding, brute-force linearizability check per schedule",
+        "design_ref": "§4 C08, §12.6",
+        "rule": "seqx-topic: all histories up to depth d over the alphabet above, each re-executed on a fresh channel and compared step by step with the routing model; non-trivial = at least one message received. topicx: all schedules with ≤ bound preemptions of the programs listed in the scenarios, each re-executed on a fresh channel, followed by a sequential epilogue (drop the sender, drain every open receiver); non-trivial = operations of two threads overlap",
+        "assumptions": ["seqx-topic: single thread; async receivers are driven through try_recv (their futures are covered by the mailbox unit of C06 only)", "topicx: blocking recv is not used (try_recv only); papaya / left-right / parking_lot internals are atomic blocks"],
     },
     "C09": chan("drop ledger after every explored history and every teardown order in the alphabet: each payload instance dropped exactly once; the quick space is re-run under AddressSanitizer in the thorough tier", "§4 C09, §2 E2", extra_jobs=(SEQX_ASAN,)),
     "C11": cache("every read API on every explored history (Cache and AsyncCache handles, bulk and entry/compute forms) returns nothing or the latest live value of its own key; or_insert inserts at most once; compute applies once; lockstep: every schedule (preemption bound 2/3) of insert/remove/invalidate/compute/or_insert/clear racing reads is linearizable against the per-key register", "§5 C11, §2 E3", lockstep=True),
@@ -167,4 +170,4 @@ CHECKS = {
 # properties not (yet) claimed: id -> reason (kept current; see DESIGN.md)
 NOT_APPLICABLE = {}  # every listed property is claimed; a property dropped from CHECKS must be given a reason here
 
-HOOK_COMMITS = ["750f6f3", "65ea752", "ed0735a", "ff174a5", "d8f7bf2", "82203ff", "b03adbd", "7e9a18f", "49628c7"]
+HOOK_COMMITS = ["750f6f3", "65ea752", "ed0735a", "ff174a5", "d8f7bf2", "82203ff", "b03adbd", "7e9a18f", "49628c7", "1549af9"]
